@@ -314,9 +314,9 @@ class ArgumentParser(argparse.ArgumentParser):
             temp_parser = ArgumentParser(
                 add_config_path_arg=False,
                 add_help=False,
-                add_option_string_dash_variants=FieldWrapper.add_dash_variants,
-                argument_generation_mode=FieldWrapper.argument_generation_mode,
-                nested_mode=FieldWrapper.nested_mode,
+                add_option_string_dash_variants=self.add_option_string_dash_variants,
+                argument_generation_mode=self.argument_generation_mode,
+                nested_mode=self.nested_mode,
             )
             temp_parser.add_argument(
                 f"--{config_path_name}",
@@ -535,6 +535,13 @@ class ArgumentParser(argparse.ArgumentParser):
 
         if self._preprocessing_done:
             return
+
+        # The option strings are generated from settings stored on the `FieldWrapper` class, which
+        # the constructor of *every* parser overwrites: make sure that the ones in effect while the
+        # arguments of this parser are generated are its own.
+        FieldWrapper.add_dash_variants = self.add_option_string_dash_variants
+        FieldWrapper.argument_generation_mode = self.argument_generation_mode
+        FieldWrapper.nested_mode = self.nested_mode
 
         args = list(args)
 
